@@ -66,6 +66,7 @@ type Tx struct {
 	writable               bool
 	pendingWrites          []*Entry
 	ReservedStoreTxIDIdxes map[int64]*BPTree
+	lockHeld               bool // the database lock is held by the caller (Merge), not by this transaction
 }
 
 // Begin opens a new transaction.
@@ -603,6 +604,9 @@ func (tx *Tx) Rollback() error {
 
 // lock locks the database based on the transaction type.
 func (tx *Tx) lock() {
+	if tx.lockHeld {
+		return
+	}
 	if tx.writable {
 		tx.db.mu.Lock()
 	} else {
@@ -612,6 +616,9 @@ func (tx *Tx) lock() {
 
 // unlock unlocks the database based on the transaction type.
 func (tx *Tx) unlock() {
+	if tx.lockHeld {
+		return
+	}
 	if tx.writable {
 		tx.db.mu.Unlock()
 	} else {
